@@ -27,7 +27,7 @@ RULE = (
     "computed before the history starts, and equal to the reference encoding). (1) Histories: Hypothesis "
     "RuleBasedStateMachine over a drawn pool of 4-8 classes (always a flexible request header, a class with tagged "
     "fields and two versions of one API whose classes share names) x 1-3 values; rules: create reader/writer (cold or "
-    "warm, cache_clear is a rule), encode, decode, decode a truncated prefix, encode an invalid value (wrong-typed "
+    "warm, cache_clear is a rule; every pool also holds two versions of one same-named tag-bearing class in a drawn order), encode, decode, decode a truncated prefix, encode an invalid value (wrong-typed "
     "field so the writer fails part-way), encode/decode through a stream that raises at call k; invariant after every "
     "step: every pool value still encodes/decodes to its pristine result through the currently cached closures, and "
     "injected exceptions propagate unchanged. (2) Fault positions: for each (class, value) pair ALL k in [0, W) write "
@@ -268,8 +268,33 @@ def _pool_classes(seed_classes):
     return [D.describe(D.resolve(p)) for p in _FIXED_POOL] + seed_classes
 
 
+def same_name_groups() -> list[list[str]]:
+    """Classes that share a name across versions of one API and (transitively) contain tagged fields: the place where
+    a cache keyed by something less than the class object, or a default shared between classes, would show."""
+    from ..treeprop import _has_tagged
+
+    groups: dict = {}
+    for c in D.all_classes():
+        cd = D.describe(c)
+        if _has_tagged(cd):
+            api = c.__module__.split(".")[2]
+            groups.setdefault((api, c.__module__.split(".")[4], c.__name__), []).append(cd.path)
+    return [sorted(v) for k, v in sorted(groups.items()) if len(v) >= 2]
+
+
+def all_same_name_groups() -> list[list[str]]:
+    """Every class name that occurs in >= 2 versions of one (API, type): 2-version pairs are drawn from these too."""
+    groups: dict = {}
+    for c in D.all_classes():
+        parts = c.__module__.split(".")
+        groups.setdefault((parts[2], parts[4], c.__name__), []).append(f"{c.__module__}:{c.__qualname__}")
+    return [sorted(v) for k, v in sorted(groups.items()) if len(v) >= 2]
+
+
 class HistoryMachine(RuleBasedStateMachine):
     extra_classes: list = []
+    name_groups: list = []
+    any_groups: list = []
 
     def __init__(self):
         super().__init__()
@@ -281,6 +306,15 @@ class HistoryMachine(RuleBasedStateMachine):
         chosen = data.draw(st.lists(st.sampled_from(fixed), min_size=3, max_size=4, unique_by=lambda c: c.path))
         if self.extra_classes:
             chosen += data.draw(st.lists(st.sampled_from(self.extra_classes), min_size=1, max_size=4, unique_by=lambda c: c.path))
+        if self.name_groups:
+            # two versions of one same-named class (in a drawn order)
+            group = data.draw(st.sampled_from(self.name_groups))
+            pair = data.draw(st.lists(st.sampled_from(group), min_size=2, max_size=2, unique=True))
+            chosen = [D.describe(D.resolve(p)) for p in pair] + [c for c in chosen if c.path not in pair]
+        if self.any_groups:
+            group = data.draw(st.sampled_from(self.any_groups))
+            pair = data.draw(st.lists(st.sampled_from(group), min_size=2, max_size=2, unique=True))
+            chosen = chosen[:5] + [D.describe(D.resolve(p)) for p in pair if p not in {c.path for c in chosen}]
         clear_caches()
         for cd in chosen:
             for _ in range(data.draw(st.integers(1, 2))):
@@ -373,10 +407,12 @@ def minimize_ops(ops: list, sig: str, budget: int = 120) -> list:
 
 
 def _history_worker(task):
-    seed, runs, steps, extra_paths = task
+    seed, runs, steps, extra_paths, groups, any_groups = task
     rep = Report(prop=ID, level="exploration", rule=RULE)
     _HISTORY_STATS.update({"runs": 0, "steps": 0, "nontrivial": set(), "samples": [], "last_log": []})
     HistoryMachine.extra_classes = [D.describe(D.resolve(p)) for p in extra_paths]
+    HistoryMachine.name_groups = groups
+    HistoryMachine.any_groups = any_groups
     try:
         run_state_machine_as_test(
             hypothesis.seed(seed)(HistoryMachine),
@@ -712,7 +748,12 @@ def run(ctx: Ctx) -> Report:
     paths = [f"{c.__module__}:{c.__qualname__}" for c in classes]
     # (1) histories
     runs, steps = (160, 40) if ctx.quick else (2000, 50)
-    tasks = [(ctx.subseed("hist", i), runs // shards, steps, paths[i::shards][:12]) for i in range(shards)]
+    groups = same_name_groups()
+    any_groups = all_same_name_groups()
+    tasks = [(ctx.subseed("hist", i), runs // shards, steps, paths[i::shards][:12], groups[i::shards] or groups,
+              any_groups[i::shards]) for i in range(shards)]
+    total.extra["all_same_name_groups"] = len(any_groups)
+    total.extra["same_name_groups"] = len(groups)
     for rep in pool_map(_history_worker, tasks):
         total.merge(rep)
     # (2) fault positions, exhaustive per pair
